@@ -6,6 +6,8 @@ import (
 
 	"github.com/ipfs/go-cid"
 
+	"github.com/ucan-wg/go-ucan/pkg/policy"
+	"github.com/ucan-wg/go-ucan/pkg/policy/literal"
 	"github.com/ucan-wg/go-ucan/token/delegation"
 	"github.com/ucan-wg/go-ucan/token/invocation"
 
@@ -576,22 +578,33 @@ func c04EpochSub() *engine.Sub {
 
 type c04ExpiryCase struct {
 	Which string `json:"which"` // invocation | leaf | root
+	Pre   string `json:"pre"`   // what happens before the wait: same-token-allowed | other-policy-refused | other-command-refused | other-missing-delegation | other-allowed | nothing
 }
 
-// c04AcrossExpirySub: the one sub-check that lets real time pass. A token that is allowed
-// now and whose chain expires in 1.5 s is checked again, on the SAME token value, after the
-// expiry. Only "allowed before, still allowed afterwards" is a violation; if the first check is
-// not allowed (slow machine) the case is inconclusive, so the verdict cannot depend on speed.
+// c04AcrossExpirySub: the one sub-check that lets real time pass. A chain that is valid now and
+// expires shortly is checked after the expiry - on the SAME token value that was allowed before, or
+// for the first time after ANOTHER check (allowed, or refused for each kind of reason) ran before the
+// wait. Only "allowed after the expiry" is a violation; if a first check that should be allowed is
+// not (slow machine) the case is inconclusive, so the verdict cannot depend on speed.
 func c04AcrossExpirySub() *engine.Sub {
 	return &engine.Sub{
-		Name:    "same-token-across-real-expiry",
+		Name:    "checks-across-real-expiry",
 		Replays: 1,
-		Rule:    "ExecutionAllowed and ExecutionAllowedWithArgsHook on one invocation token whose invocation / leaf delegation / root delegation expires 1.5 s after construction: checked at once (expected allowed, otherwise inconclusive), then again on the same token 1 s after the expiry: must be denied (no memo of a time-dependent verdict); non-trivial = conclusive cases",
-		Bound:   func(string) string { return "3 expiring positions x 2 APIs, 2.5 s of real time" },
+		Serial:  true,
+		Rule:    "ExecutionAllowed and ExecutionAllowedWithArgsHook on a 2-link chain whose invocation / leaf delegation / root delegation expires 0.3 s (delegations) or 1.5 s (invocation: whole-second rounding) after construction. Before the wait one of: the same token is checked (expected allowed, otherwise inconclusive); another invocation is checked and allowed / refused by policy / refused by command / refused for a missing delegation; nothing. After the expiry the expiring chain is checked: it must be denied (no time-dependent verdict or check instant survives a call); non-trivial = conclusive cases",
+		Bound: func(string) string {
+			return "3 expiring positions x 6 histories (invocation: 2) x 2 APIs, about 8 s of real time"
+		},
 		Gen: func(tier string, emit func(any) bool) {
-			for _, w := range []string{"invocation", "leaf", "root"} {
-				if !emit(&c04ExpiryCase{w}) {
-					return
+			for _, w := range []string{"leaf", "root", "invocation"} {
+				pres := []string{"same-token-allowed", "other-policy-refused", "other-command-refused", "other-missing-delegation", "other-allowed", "nothing"}
+				if w == "invocation" {
+					pres = []string{"same-token-allowed", "other-policy-refused"}
+				}
+				for _, p := range pres {
+					if !emit(&c04ExpiryCase{w, p}) {
+						return
+					}
 				}
 			}
 		},
@@ -599,7 +612,10 @@ func c04AcrossExpirySub() *engine.Sub {
 		Run: func(ctx *engine.Ctx, c any) {
 			cs := c.(*c04ExpiryCase)
 			chainInit()
-			const life = 1500 * time.Millisecond
+			life, slack := 300*time.Millisecond, 150*time.Millisecond
+			if cs.Which == "invocation" {
+				life, slack = 1500*time.Millisecond, 1100*time.Millisecond
+			}
 			start := time.Now()
 			var lo, ro []delegation.Option
 			var io []invocation.Option
@@ -612,26 +628,58 @@ func c04AcrossExpirySub() *engine.Sub {
 				io = append(io, invocation.WithExpirationIn(life))
 			}
 			ld := &sliceLoader{cids: []cid.Cid{cidPool[0], cidPool[1]}, toks: []*delegation.Token{mustDlg(1, 2, 0, "/a", nil, lo...), mustDlg(0, 1, 0, "/a", nil, ro...)}}
-			io = append(io, invocation.WithNonce(fixedNonce))
+			io = append(io, invocation.WithNonce(fixedNonce), invocation.WithArgument("x", 1))
 			inv, err := invocation.New(prin(2), prin(0), "/a", []cid.Cid{cidPool[0], cidPool[1]}, io...)
 			if err != nil {
 				panic(err)
 			}
-			e1, e2 := bothVerdicts(inv, ld)
-			ctx.Eval(2)
+			// the other invocation: a chain without time bounds
+			polX2 := policy.MustConstruct(policy.Equal(".x", literal.Int(2)))
+			old := &sliceLoader{cids: []cid.Cid{cidPool[2], cidPool[3]}, toks: []*delegation.Token{mustDlg(1, 2, 0, "/a", nil), mustDlg(0, 1, 0, "/a", nil)}}
+			ocmd := "/a"
+			switch cs.Pre {
+			case "other-policy-refused":
+				old.toks[0] = mustDlg(1, 2, 0, "/a", polX2)
+			case "other-command-refused":
+				ocmd = "/b"
+			case "other-missing-delegation":
+				old.cids, old.toks = old.cids[:1], old.toks[:1]
+			}
+			other, err := invocation.New(prin(2), prin(0), commandOf(ocmd), []cid.Cid{cidPool[2], cidPool[3]}, invocation.WithNonce(fixedNonce), invocation.WithArgument("x", 1))
+			if err != nil {
+				panic(err)
+			}
 			ctx.States(1)
-			if e1 != nil || e2 != nil {
-				ctx.Outcome("inconclusive-first-check-denied")
-				return
+			switch cs.Pre {
+			case "same-token-allowed":
+				e1, e2 := bothVerdicts(inv, ld)
+				ctx.Eval(2)
+				if e1 != nil || e2 != nil {
+					ctx.Outcome("inconclusive-first-check-denied")
+					return
+				}
+			case "nothing":
+			default:
+				e1, e2 := bothVerdicts(other, old)
+				ctx.Eval(2)
+				want := map[string]string{"other-policy-refused": "ErrPolicyNotSatisfied", "other-command-refused": "ErrCommandNotCovered", "other-missing-delegation": "ErrMissingDelegation", "other-allowed": "allowed"}[cs.Pre]
+				if errLabel(e1) != want || errLabel(e2) != want {
+					panic(fmt.Sprintf("harness: the preceding check %s answered %s / %s", cs.Pre, errLabel(e1), errLabel(e2)))
+				}
 			}
 			ctx.Nontrivial(1)
-			time.Sleep(time.Until(start.Add(life + 1100*time.Millisecond)))
-			a1, a2 := bothVerdicts(inv, ld)
+			time.Sleep(time.Until(start.Add(life + slack)))
+			a1 := inv.ExecutionAllowed(ld)
+			if cs.Pre != "same-token-allowed" && cs.Pre != "nothing" {
+				// once more the other check, then the hook variant of the expiring one
+				other.ExecutionAllowed(old)
+			}
+			a2 := inv.ExecutionAllowedWithArgsHook(ld, identityHook)
 			ctx.Eval(2)
 			ctx.Trans(2)
 			if a1 == nil || a2 == nil {
-				ctx.Outcome("still-allowed-after-expiry")
-				ctx.Failf(cs, "stale-verdict/allowed-after-"+cs.Which+"-expired", "the same invocation token is still allowed %.1f s after its %s expired (ExecutionAllowed: %v, WithArgsHook: %v)", time.Since(start.Add(life)).Seconds(), cs.Which, a1, a2)
+				ctx.Outcome("allowed-after-expiry")
+				ctx.Failf(cs, "stale-verdict/allowed-after-"+cs.Which+"-expired/"+cs.Pre, "a chain whose %s expired %.2f s ago is allowed (ExecutionAllowed: %v, WithArgsHook: %v); before the wait: %s", cs.Which, time.Since(start.Add(life)).Seconds(), a1, a2, cs.Pre)
 				return
 			}
 			ctx.Outcome("denied-after-expiry")
